@@ -14,6 +14,33 @@ func doDump(p *Program, what string) {
 			fmt.Printf("%-90s lib=%v http=%v init=%v %s\n", funcKey(f), p.RPLib[f], p.RPHttp[f], p.Inits[f], p.fpos(f))
 		}
 		fmt.Printf("%d funcs, RPLib=%d RPHttp=%d Inits=%d pkgs=%d\n", len(p.Funcs), len(p.RPLib), len(p.RPHttp), len(p.Inits), len(p.Pkgs))
+	case strings.HasPrefix(what, "sum:"):
+		key := strings.TrimPrefix(what, "sum:")
+		f := p.Func(key)
+		if f == nil {
+			for _, sf := range p.SpecFuncs {
+				if funcKey(sf) == key {
+					f = sf
+				}
+			}
+		}
+		if f == nil {
+			fmt.Println("not found")
+			return
+		}
+		dumpSummary(p, Summarize(p, f))
+	case what == "specs":
+		pairs, missing := p.specPairs()
+		for _, m := range missing {
+			fmt.Println("MISSING anchor for spec:", m)
+		}
+		for _, sp := range pairs {
+			res := compareSummaries(p, Summarize(p, sp.Code), Summarize(p, sp.Spec))
+			fmt.Printf("%-70s ok=%v labels=%d cases=%d\n", sp.Key, res.OK, res.Labels, res.Cases)
+			for _, d := range res.Details {
+				fmt.Println("     ", d)
+			}
+		}
 	case strings.HasPrefix(what, "ssa:"):
 		f := p.Func(strings.TrimPrefix(what, "ssa:"))
 		if f == nil {
